@@ -76,6 +76,23 @@ def function_digest(repo: Repo, func_key: str, site_expr: str | None = None) -> 
             node = n
         if keep:
             parts.append(ast.dump(node, annotate_fields=False, include_attributes=False))
+    # repository functions called inside the site expression: the SAFE reason usually rests on what they return
+    cls_prefix = qual.rsplit(".", 1)[0] + "." if "." in qual else ""
+    for c in ast.walk(ast.parse(site_expr, mode="eval")):
+        if not isinstance(c, ast.Call):
+            continue
+        callee = None
+        if isinstance(c.func, ast.Name):
+            callee = c.func.id
+        elif isinstance(c.func, ast.Attribute) and isinstance(c.func.value, ast.Name) and c.func.value.id == "self" and cls_prefix:
+            callee = cls_prefix + c.func.attr
+        if callee is None:
+            continue
+        try:
+            repo.func(rel, callee)
+        except Exception:  # noqa: BLE001
+            continue
+        parts.append(f"callee {callee}: {function_digest(repo, f'{rel}::{callee}')}")
     sig = [a.arg for a in fn.args.args + fn.args.kwonlyargs]
     text = repr(sig) + "|" + site_expr + "|" + "\n".join(parts)
     return hashlib.sha256(text.encode()).hexdigest()[:16]
